@@ -277,7 +277,7 @@ func c12History(c *vc.Ctx, idx int) {
 	interval := int64(5 + r.Intn(16))
 	initial := []int64{1_000_000_000_000_000_000, 2378234400000000000, 7, 6_000_000_000_000_000_000, 999_999_999_999_999_999}[r.Intn(5)]
 	remain := []int64{0, 3, 20, 1000}[r.Intn(4)]
-	cfg := lockCfg{Label: "c12", NVals: len(powers), Powers: powers, Blocks: c.Pick(50, 160), Protect0: true,
+	cfg := lockCfg{Label: "c12", NVals: len(powers), Powers: powers, Blocks: c.Pick(50, 160), Protect0: true, UnknownClaims: idx%5 == 4,
 		W: lockWeights{Create: 6, Lock: 25, Unlock: 15, Claim: 35, Grant: 25, Weight: 4, Absent: 5},
 		Params: func(p *lockingtypes.Params) {
 			p.HalvingInterval = interval
